@@ -9,7 +9,7 @@ use serde_json::{json, Value};
 use std::io::{BufRead, Read};
 use vph::refdec;
 
-pub const RULE: &str = "frame parameter menu of 12 (rate: fixed code / kHz / Hz / daHz classes; channels 1,2,3,8; depth 8,12,16,20,24,32; length 1,16,17,40): (A) ALL sequences of 1..3 frames written by FlacStreamWriter — each frame must decode from its own bytes alone in the independent decoder's subset mode and FlacStreamReader must return every frame's samples and parameters exactly, for the unsegmented source, every single cut point and 1-byte buffers; all non-subset rate/depth classes must be refused at write; (C) grammar-built raw frame streams covering every block-size code (incl. both explicit forms), every sample-rate code that is carried in the header, every depth code and every channel-assignment code, fixed and variable blocking, read whole / through 7-byte buffers / with one cut: every frame returned exactly; (D) the writer's own code tables: frames of every common block length (192, 576·2^k, 256·2^k) and 255 / 257 / 65535 / 1 / 15 samples × channels 1..8 × a depth/rate menu × 5 option sets (exhaustive / fast correlation, no mid-side, no LPC, LPC 32) on channel-heterogeneous signals, each followed by a frame with other parameters: decodable from the own header with exact parameters and samples, and returned exactly by FlacStreamReader; (B) 6 three-frame sequences × ALL placements of ≤3 garbage strings from {00, FF, FF FF, FF F8, FF F9, FF F8 + CRC-8-valid fake header, the first 5 / 9 bytes of a real frame, 37 sync-free bytes} in the 4 gaps × every single cut point of the source (thorough: + every pair of cuts for ≤1 garbage string) and 1-byte buffers: frames returned Ok must be a subsequence of the written frames in order with exact samples/parameters; when no inserted string contains FF F8/FF F9 every frame must be returned and no error may precede the final end of data";
+pub const RULE: &str = "frame parameter menu of 12 (rate: fixed code / kHz / Hz / daHz classes; channels 1,2,3,8; depth 8,12,16,20,24,32; length 1,16,17,40): (A) ALL sequences of 1..3 frames written by FlacStreamWriter — each frame must decode from its own bytes alone in the independent decoder's subset mode and FlacStreamReader must return every frame's samples and parameters exactly, for the unsegmented source, every single cut point and 1-byte buffers; all non-subset rate/depth classes must be refused at write; (C) grammar-built raw frame streams covering every block-size code (incl. both explicit forms), every sample-rate code that is carried in the header, every depth code and every channel-assignment code, fixed and variable blocking, read whole / through 7-byte buffers / with one cut: every frame returned exactly; (D) the writer's own code tables: frames of every common block length (192, 576·2^k, 256·2^k) and 255 / 257 / 65535 / 1 / 15 samples, and 65536 / 65537 / 69632 / 131073 (more than a header can describe) × channels 1..8 × a depth/rate menu × 5 option sets (exhaustive / fast correlation, no mid-side, no LPC, LPC 32) on channel-heterogeneous signals, each followed by a frame with other parameters: decodable from the own header with exact parameters and samples, and returned exactly by FlacStreamReader; (B) 6 three-frame sequences × ALL placements of ≤3 garbage strings from {00, FF, FF FF, FF F8, FF F9, FF F8 + CRC-8-valid fake header, the first 5 / 9 bytes of a real frame, 37 sync-free bytes} in the 4 gaps × every single cut point of the source (thorough: + every pair of cuts for ≤1 garbage string) and 1-byte buffers: frames returned Ok must be a subsequence of the written frames in order with exact samples/parameters; when no inserted string contains FF F8/FF F9 every frame must be returned and no error may precede the final end of data";
 pub const ASSUMPTIONS: &[&str] = &["garbage is drawn from a 9-string alphabet; frames from a 12-entry parameter menu with position-identifying PCM"];
 pub fn bounds(quick: bool) -> Value {
     json!({"clean_sequences": "all of length 1..3 over 12 frame kinds", "garbage_strings_per_stream": 3, "cuts": if quick { "every single cut (≤2 garbage strings), every pair of cuts (≤1 garbage string, first sequence), 1-byte buffers" } else { "every single cut, every pair of cuts (≤2 garbage strings), 1-byte buffers" }})
@@ -173,7 +173,9 @@ fn is_subsequence(got: &[Got], want: &[Got]) -> bool {
 fn check_stream(acc: &mut Acc, data: &[u8], want: &[Got], clean: bool, cuts: &[usize], chunk: usize, origin: &Value) {
     acc.executions += 1;
     acc.transitions += want.len() as u64 + 1;
-    let case = || json!({"kind":"raw-stream","data":hex(data),"cuts":cuts,"chunk":chunk,"clean":clean,"origin":origin});
+    // the expected frames travel with the case, so that a replay needs nothing but the file
+    let case = || json!({"kind":"raw-stream","data":hex(data),"cuts":cuts,"chunk":chunk,"clean":clean,"origin":origin,
+        "want": want.iter().map(|g| json!({"samples": g.samples, "rate": g.rate, "ch": g.ch, "bps": g.bps})).collect::<Vec<_>>()});
     match read_all(data, cuts, chunk) {
         Err(p) => {
             acc.outcome("panic");
@@ -200,7 +202,8 @@ fn check_stream(acc: &mut Acc, data: &[u8], want: &[Got], clean: bool, cuts: &[u
 fn table_cases() -> Vec<(usize, u8, u32, u32, usize, u32)> {
     // (block length, channels, depth, rate, option set, per-channel trait code for encspace::hetero)
     let mut v = Vec::new();
-    let lens = [192usize, 576, 1152, 2304, 4608, 256, 512, 1024, 2048, 4096, 8192, 16384, 32768, 255, 257, 65535, 1, 15];
+    // (65536 and more cannot be described by a frame header: refusing is fine, emitting a frame that does not describe itself is not)
+    let lens = [192usize, 576, 1152, 2304, 4608, 256, 512, 1024, 2048, 4096, 8192, 16384, 32768, 255, 257, 65535, 1, 15, 65536, 65537, 69632, 131073];
     for (li, &len) in lens.iter().enumerate() {
         for ch in 1..=8u8 {
             if len > 4608 && ch > 2 {
@@ -436,8 +439,13 @@ pub fn replay(v: &Value) -> Option<(bool, String)> {
             let data = crate::core::unhex(v["data"].as_str()?);
             let cuts: Vec<usize> = v["cuts"].as_array()?.iter().map(|x| x.as_u64().unwrap_or(0) as usize).collect();
             let chunk = v["chunk"].as_u64()? as usize;
-            let seq: Vec<usize> = v["origin"]["frames"].as_array()?.iter().map(|x| x.as_u64().unwrap_or(0) as usize).collect();
-            let want = expect(&seq);
+            let want: Vec<Got> = match v["want"].as_array() {
+                Some(w) => w.iter().map(|g| Got { samples: crate::core::ivec(&g["samples"]), rate: g["rate"].as_u64().unwrap_or(0) as u32, ch: g["ch"].as_u64().unwrap_or(0) as u8, bps: g["bps"].as_u64().unwrap_or(0) as u32 }).collect(),
+                None => {
+                    let seq: Vec<usize> = v["origin"]["frames"].as_array()?.iter().map(|x| x.as_u64().unwrap_or(0) as usize).collect();
+                    expect(&seq)
+                }
+            };
             let clean = v["clean"].as_bool()?;
             match read_all(&data, &cuts, chunk) {
                 Err(p) => Some((true, p)),
